@@ -3,6 +3,7 @@
 package weshnet
 
 import (
+	"berty.tech/go-orbit-db/stores/operation"
 	"context"
 	"fmt"
 	"github.com/libp2p/go-libp2p/core/event"
@@ -553,6 +554,66 @@ func c13RPC(rep *vrep.Report, t *testing.T, n int) {
 			rep.AddTransitions(1)
 			if !same {
 				rep.Violation("C13/rpc-listing-mixed-with-live-event", fmt.Sprintf("%s list RPC (until_now, reverse=%v) while an entry is written during the listing: err=%v, returned %d events, the log held %d when the request was made; returned order differs from the log order of that moment", store, rev, lerr, len(got), len(want)), c13Case{Store: store + "-rpc-live", N: len(want), Arrival: "service", Since: -1, Until: -1, Reverse: rev})
+			}
+		}
+	}
+	// an entry that does not open (an operation whose value is not a sealed group envelope, as any holder of the log's
+	// write access can append) in the middle of the metadata log: listings skip it and stay complete and ordered
+	{
+		ms := gc.MetadataStore()
+		_, err := ms.AddOperation(ctx, operation.NewOperation(nil, "ADD", []byte("not a sealed group envelope")), nil)
+		vmust(err)
+		_, err = tp.Service.ContactRequestEnable(ctx, &protocoltypes.ContactRequestEnable_Request{})
+		vmust(err)
+		var want []string
+		for _, e := range ms.OpLog().Values().Slice() {
+			if _, _, oerr := openMetadataEntry(ms.OpLog(), e, gc.Group()); oerr == nil {
+				want = append(want, e.GetHash().String())
+			}
+		}
+		total := ms.OpLog().Len()
+		for _, rev := range []bool{false, true} {
+			exp := append([]string{}, want...)
+			if rev {
+				for i, j := 0, len(exp)-1; i < j; i, j = i+1, j-1 {
+					exp[i], exp[j] = exp[j], exp[i]
+				}
+			}
+			// store API
+			var got []string
+			nilEvents := 0
+			ch, lerr := ms.ListEvents(ctx, nil, nil, rev)
+			if lerr == nil {
+				for e := range ch {
+					if e == nil || e.EventContext == nil {
+						nilEvents++
+						continue
+					}
+					_, c, cerr := cid.CidFromBytes(e.EventContext.Id)
+					vmust(cerr)
+					got = append(got, c.String())
+				}
+			}
+			okStore := lerr == nil && nilEvents == 0 && strings.Join(got, ",") == strings.Join(exp, ",")
+			rep.Eval(fmt.Sprintf("unreadable-entry/store/reverse=%v/ok=%v", rev, okStore))
+			rep.AddTransitions(1)
+			if !okStore {
+				rep.Violation("C13/listing-with-unreadable-entry", fmt.Sprintf("metadata store listing (reverse=%v) of a log of %d entries of which one does not open: err=%v, %d empty events, %d of %d readable events returned in order=%v", rev, total, lerr, nilEvents, len(got), len(exp), strings.Join(got, ",") == strings.Join(exp, ",")), c13Case{Store: "metadata-unreadable", N: total, Arrival: "service", Since: -1, Until: -1, Reverse: rev})
+			}
+			// RPC
+			st := &recStream[protocoltypes.GroupMetadataEvent]{ctx: ctx}
+			rerr := svc.GroupMetadataList(&protocoltypes.GroupMetadataList_Request{GroupPk: cfg.AccountGroupPk, UntilNow: true, ReverseOrder: rev}, st)
+			var rgot []string
+			for _, m := range st.all() {
+				_, c, cerr := cid.CidFromBytes(m.EventContext.Id)
+				vmust(cerr)
+				rgot = append(rgot, c.String())
+			}
+			okRPC := rerr == nil && strings.Join(rgot, ",") == strings.Join(exp, ",")
+			rep.Eval(fmt.Sprintf("unreadable-entry/rpc/reverse=%v/ok=%v", rev, okRPC))
+			rep.AddTransitions(1)
+			if !okRPC {
+				rep.Violation("C13/rpc-listing-with-unreadable-entry", fmt.Sprintf("GroupMetadataList (until_now, reverse=%v) over a log of %d entries of which one does not open: err=%v, returned %d of %d readable events", rev, total, rerr, len(rgot), len(exp)), c13Case{Store: "metadata-unreadable-rpc", N: total, Arrival: "service", Since: -1, Until: -1, Reverse: rev})
 			}
 		}
 	}
